@@ -1,30 +1,38 @@
 #!/usr/bin/env python3
 """usage: diff2control.py <patch.diff> <name> <props,comma> <neg|pos> <expect-or-empty> <why>  > controls/<name>.json
-Turns a unified diff that touches ONE file into an in-situ control: every hunk becomes an exact-text replacement
-(old = context + removed lines, new = context + added lines)."""
-import sys, json, re
+Turns a unified diff into an in-situ control: every hunk becomes an exact-text replacement
+(old = context + removed lines, new = context + added lines); several files are supported."""
+import sys, json
 diff, name, props, kind, expect, why = sys.argv[1:7]
-files = []
-edits = []
+files = {}
+order = []
+cur = None
 old = new = None
+def flush():
+    global old, new
+    if old is not None and (old or new):
+        files[cur].append([''.join(old), ''.join(new)])
+    old = new = None
 for line in open(diff).read().split('\n'):
-    if line.startswith('+++ b/'):
-        files.append(line[6:])
+    if line.startswith('diff --git'):
+        flush()
+    elif line.startswith('+++ b/'):
+        cur = line[6:]
+        files.setdefault(cur, []); order.append(cur)
+    elif line.startswith('--- '):
+        pass
     elif line.startswith('@@'):
-        if old is not None:
-            edits.append([''.join(old), ''.join(new)])
-        old, new = [], []
+        flush(); old, new = [], []
     elif old is not None:
-        if line.startswith('-') and not line.startswith('---'):
+        if line.startswith('-'):
             old.append(line[1:] + '\n')
-        elif line.startswith('+') and not line.startswith('+++'):
+        elif line.startswith('+'):
             new.append(line[1:] + '\n')
         elif line.startswith(' '):
             old.append(line[1:] + '\n'); new.append(line[1:] + '\n')
-        elif line.startswith('diff --git') :
-            edits.append([''.join(old), ''.join(new)]); old = None
-if old is not None and (old or new):
-    edits.append([''.join(old), ''.join(new)])
-assert len(set(files)) == 1, 'diff must touch exactly one file: %s' % files
-json.dump({"name": name, "props": props.split(','), "file": files[0], "edits": edits,
-           "negative": kind == 'neg', "expect": expect, "why": why}, sys.stdout, indent=1)
+flush()
+first = order[0]
+out = {"name": name, "props": props.split(','), "file": first, "edits": files[first],
+       "more": [{"file": f, "edits": files[f]} for f in order[1:]],
+       "negative": kind == 'neg', "expect": expect, "why": why}
+json.dump(out, sys.stdout, indent=1)
